@@ -6,15 +6,6 @@ Queries the record builders of `ural/facebook.py` make (C19 round trip):
 namespace Ural.Facebook
 open Ural.Py Ural
 
-/-- the characters of a query-borne field for which the round trip is proved: anything but
-`&` (item separator), `#`, `+` and `%` (decoded by `parse_qs`), TAB, CR, LF (deleted by
-`urlsplit`) -/
-def qvalChar (c : Char) : Bool :=
-  c ≠ '&' && c ≠ '#' && c ≠ '+' && c ≠ '%' && !isUnsafeUrlChar c
-
-/-- a query value the round trip is proved for: not empty, made of `qvalChar`s -/
-def qvalOk (s : Str) : Bool := !s.isEmpty && s.all qvalChar
-
 /-- a query key of the builders: as a value, moreover without `=`, and not starting with `a`/`A`
 (what follows `&` must not read `amp;`) -/
 def qkeyOk (k : Str) : Bool :=
